@@ -78,6 +78,13 @@ pub trait Scenario: Sized + 'static {
     fn quiescent_alt_cost() -> u32 {
         0
     }
+    /// A number that changes whenever the scenario observes any activity (log, wire, gates). When given,
+    /// the driver recognises a **busy loop**: many task polls in a row without quiescence and without any
+    /// change of the marker. Such a point is treated like a quiescent one (the environment goes on acting
+    /// while the endpoint spins) and the execution is counted in `busy_loop_executions`.
+    fn progress_marker(&self) -> Option<u64> {
+        None
+    }
 }
 
 // ---------------------------------------------------------------------------
@@ -107,6 +114,8 @@ pub struct ExecRecord {
     pub events: u64,
     pub verdict: Option<Verdict>,
     pub panic: Option<String>,
+    /// points at which a busy loop was recognised and treated as quiescence
+    pub spins: u32,
 }
 
 thread_local! {
@@ -154,6 +163,11 @@ pub fn bump_root_poll() {
 
 static INIT: Once = Once::new();
 
+thread_local! { static SPIN_PRINTED: std::cell::Cell<u32> = const { std::cell::Cell::new(0) }; }
+
+/// task polls without quiescence and without observable activity after which a busy loop is assumed
+const SPIN_LIMIT: u64 = 400;
+
 fn global_init() {
     INIT.call_once(|| {
         unsafe {
@@ -173,6 +187,18 @@ fn global_init() {
                 },
                 |p| {
                     POLLS.with(|c| c.set(c.get() + 1));
+                    // VERIF_SPINDBG (with VERIF_LEAKDBG): say which task is polled once an execution is far too long
+                    if STEP.with(|s| s.get()) > 400 && std::env::var("VERIF_SPINDBG").is_ok() {
+                        let n = SPIN_PRINTED.with(|c| {
+                            c.set(c.get() + 1);
+                            c.get()
+                        });
+                        if n < 6 {
+                            let bt = TASKS.with(|t| t.borrow().get(&(p as usize)).cloned().unwrap_or_default());
+                            let lines: Vec<&str> = bt.lines().filter(|l| l.contains("ntex") || l.contains("mc::")).take(14).collect();
+                            eprintln!("SPIN poll of task {} spawned at:\n{}", p as usize, lines.join("\n"));
+                        }
+                    }
                     p
                 },
                 |_| {},
@@ -295,6 +321,8 @@ impl<S: Scenario> Driver for Drv<S> {
         let mut idle_spins = 0u32;
         let mut teardown_polls = 0u32;
         let mut polls: u64 = 0;
+        let mut spin_polls: u64 = 0;
+        let mut last_marker: Option<u64> = None;
         loop {
             let before = POLLS.with(|p| p.get());
             if let PollResult::Ready = rt.poll() {
@@ -376,7 +404,35 @@ impl<S: Scenario> Driver for Drv<S> {
                     continue;
                 }
             }
-            let quiescent = !ran;
+            // busy-loop recognition
+            let mut spinning = false;
+            if ran {
+                if let Some(m) = world.progress_marker() {
+                    if last_marker == Some(m) {
+                        spin_polls += 1;
+                    } else {
+                        last_marker = Some(m);
+                        spin_polls = 0;
+                    }
+                    if spin_polls >= SPIN_LIMIT {
+                        spinning = true;
+                        spin_polls = 0;
+                        let mut r = self.rec.lock().unwrap();
+                        r.spins += 1;
+                        if r.spins > 50 {
+                            drop(r);
+                            drop(wg);
+                            self.finish(Verdict::Violation(Violation::new("livelock", "poll horizon exceeded", "busy loop that no environment event ends".to_string())));
+                            finishing = true;
+                            continue;
+                        }
+                        r.log.push(format!("[{}] SPIN: {SPIN_LIMIT} task polls without quiescence or observable activity - treated as a quiescent point", STEP.with(|s| s.get())));
+                    }
+                }
+            } else {
+                spin_polls = 0;
+            }
+            let quiescent = !ran || spinning;
             let evs = world.enabled(quiescent);
             let n_alts = if quiescent { evs.len() } else { evs.len() + 1 };
             if quiescent && evs.is_empty() {
@@ -702,6 +758,9 @@ pub struct Stats {
     pub outcomes: HashSet<u64>,
     pub nontrivial_outcomes: HashSet<u64>,
     pub nontrivial_execs: u64,
+    /// executions in which a busy loop was recognised (see Scenario::progress_marker)
+    pub spin_execs: u64,
+    pub spin_sample: Option<Vec<String>>,
     pub max_depth: usize,
     pub violations: Vec<FoundViolation>,
     pub violation_classes: BTreeMap<String, u64>,
@@ -719,6 +778,10 @@ impl Stats {
         self.outcomes.extend(o.outcomes);
         self.nontrivial_outcomes.extend(o.nontrivial_outcomes);
         self.nontrivial_execs += o.nontrivial_execs;
+        self.spin_execs += o.spin_execs;
+        if self.spin_sample.is_none() {
+            self.spin_sample = o.spin_sample;
+        }
         self.max_depth = self.max_depth.max(o.max_depth);
         for v in o.violations {
             if self.violations.len() < 50 {
@@ -827,6 +890,12 @@ fn worker<S: Scenario>(cfg: &S::Cfg, ecfg: &ExploreCfg, deadline: Instant, share
         local.points += rec.points.len() as u64;
         local.transitions += rec.polls + rec.events;
         local.max_depth = local.max_depth.max(rec.points.len());
+        if rec.spins > 0 {
+            local.spin_execs += 1;
+            if local.spin_sample.is_none() {
+                local.spin_sample = Some(rec.labels.clone());
+            }
+        }
         let mut children: Vec<Vec<u16>> = Vec::new();
         let mut is_violation = false;
         match &rec.verdict {
